@@ -11,7 +11,7 @@ import streamz
 import streamz.core as score
 from streamz import Stream
 
-from .elements import FUNCS, Rec, Consumer, Jobs, E
+from .elements import FUNCS, Rec, Consumer, Jobs, E, boom
 
 SYNC_KINDS = ["map", "starmap", "filter", "accumulate", "slice", "partition", "partition_unique",
               "sliding_window", "unique", "flatten", "pluck", "collect", "union", "zip",
@@ -90,18 +90,26 @@ def node_params(draw, k, t, nodes, me_parent, maxdepth):
             fs += ["inc", "dbl", "neg", "inc", "dbl"]
             if d < maxdepth:
                 fs.append("pair")
+        if k == "map":
+            fs.append("poly")       # map(f, *args, **kwargs): extra arguments handed to f
         f = draw(st.sampled_from(fs))
         p["f"] = f
         ot = {"wrap": ["H", [t]], "pair": ["H", ["E", "E"]]}.get(f, "E" if f != "wrap" else None)
-        if f in ("inc", "dbl", "neg", "size", "tsum"):
+        if f in ("inc", "dbl", "neg", "size", "tsum", "poly"):
             ot = "E"
+        if f == "poly":
+            p["args"] = draw(st.lists(st.integers(0, 5), max_size=2))
+            p["kw"] = draw(st.sampled_from([{}, {}, {"k": 1}, {"k": 4, "j": 2}]))
         if k == "map_async":
             p["par"] = draw(st.integers(1, 3))
     elif k == "starmap":
-        fs = ["cnt"]
+        fs = ["cnt", "poly"]
         if t[0] == "H" and len(t[1]) == 2:
             fs.append("add2")
         p["f"] = draw(st.sampled_from(fs))
+        if p["f"] == "poly":    # starmap(f, *args, **kwargs)
+            p["args"] = draw(st.lists(st.integers(0, 5), max_size=2))
+            p["kw"] = draw(st.sampled_from([{}, {}, {"k": 1}, {"k": 4, "j": 2}]))
         ot = "E"
     elif k == "filter":
         p["f"] = draw(st.sampled_from(["is_even", "lt3"]))
@@ -125,7 +133,7 @@ def node_params(draw, k, t, nodes, me_parent, maxdepth):
         p["n"] = draw(st.integers(1, 4))
         p["key"] = draw(st.sampled_from([None, None, "key_mod2", "key_self"]))
         if k == "partition_t":
-            p["timeout"] = draw(st.sampled_from(INTERVALS))
+            p["timeout"] = draw(st.sampled_from(INTERVALS + [0]))   # 0: next turn of the loop
             ot = ["L", t]
         else:
             ot = ["H", [t] * p["n"]]
@@ -202,7 +210,7 @@ def node_params(draw, k, t, nodes, me_parent, maxdepth):
         p["n"] = draw(st.integers(1, 3))
         ot = t
     elif k in ("delay", "rate_limit"):
-        p["i"] = draw(st.sampled_from(INTERVALS))
+        p["i"] = draw(st.sampled_from(INTERVALS + INTERVALS + [0]))
         ot = t
     elif k == "timed_window":
         p["i"] = draw(st.sampled_from(INTERVALS))
@@ -322,7 +330,7 @@ def build(spec, log, asynchronous, consumer_modes=None, faults=None, wrap_fn=Non
                     # accumulate's state is a digest, not data in flight: the failing
                     # invocation processes its current input only
                     args = a[-1:] if spec["nodes"][_i]["k"] == "accumulate" else a
-                    ex = Boom(("f", _i, c))
+                    ex = boom(("f", _i, c))
                     log.add("fx", _i, c, _prov(args), ex)
                     raise ex
                 return _f(*a, **k)
@@ -341,9 +349,9 @@ def build(spec, log, asynchronous, consumer_modes=None, faults=None, wrap_fn=Non
             else:
                 s = Stream(asynchronous=True) if asynchronous else Stream()
         elif k == "map":
-            s = ups[0].map(fn(i, p["f"]))
+            s = ups[0].map(fn(i, p["f"]), *p.get("args", []), **p.get("kw", {}))
         elif k == "starmap":
-            s = ups[0].starmap(fn(i, p["f"]))
+            s = ups[0].starmap(fn(i, p["f"]), *p.get("args", []), **p.get("kw", {}))
         elif k == "filter":
             if i % 2:       # documented alias: remove(p) == filter(not p)
                 s = ups[0].remove(lambda x, _f=fn(i, p["f"]): not _f(x))
